@@ -8,7 +8,7 @@ from typing import Any
 from jinja2 import nodes
 
 from .. import tplq
-from ..astutil import call_name, norm, short, where
+from ..astutil import Locals, call_name, constructs_error, names_in, norm, short, where
 from ..core import PKG, Report
 from ..jinja_interp import expr_text
 from ..skeleton import SkelWalker, to_lines
@@ -95,17 +95,34 @@ def run(rep: Report, ctx: Any) -> str:
     rep.check(bool(stm) and "parameter.name" in expr_text(stm[0].node) and "'headers[\"'" in expr_text(stm[0].node), "R03.1",
               "endpoint_macros.py.jinja::header_params::keyed-by-wire-name", "headers are not keyed by the wire name", where=f"{PKG}/templates/{em.name}")
     sp = ix.func("Endpoint.sort_parameters")
-    t = norm(sp.node)
-    rep.check("endpoint.path.replace(f'{{{parameter.name}}}', f'{{{parameter.python_name}}}')" in t and "for parameter in endpoint.path_parameters" in t,
-              "R03.1", "Endpoint.sort_parameters::placeholder-rewrite", "path placeholders are not rewritten from name to python_name over path_parameters",
-              where(sp, sp.node))
+    # the loop variable may have any name: the rewrite is `endpoint.path.replace("{<p>.name}", "{<p>.python_name}")` inside a loop
+    # `for <p> in endpoint.path_parameters`
+    rewrites = []
+    for lp in [n for n in ast.walk(sp.node) if isinstance(n, ast.For) and norm(n.iter) == "endpoint.path_parameters"]:
+        pv = norm(lp.target)
+        want = f"endpoint.path.replace(f'{{{{{{{pv}.name}}}}}}', f'{{{{{{{pv}.python_name}}}}}}')"
+        rewrites += [c for c in ast.walk(lp) if isinstance(c, ast.Call) and norm(c) == want]
+    rep.check(bool(rewrites), "R03.1", "Endpoint.sort_parameters::placeholder-rewrite",
+              "path placeholders are not rewritten from name to python_name over path_parameters", where(sp, sp.node))
     fmt_loops = [f for f in et.tree.find_all(nodes.For) if expr_text(f.iter) == "endpoint.path_parameters"]
     ok = any("parameter.python_name" in " ".join(expr_text(c) for o in f.find_all(nodes.Output) for c in o.nodes if not isinstance(c, nodes.TemplateData))
              for f in fmt_loops)
     rep.check(ok, "R03.1", "endpoint_module.py.jinja::format-over-path-parameters", ".format(...) keywords are not python_name over endpoint.path_parameters",
               where=f"{PKG}/templates/{et.name}")
-    rep.check("parameters_from_path != [param.name for param in endpoint.path_parameters]" in t and "ParseError" in t, "R03.1",
-              "Endpoint.sort_parameters::path-template-check", "a mismatch between the path template and the path parameters is not diagnosed", where(sp, sp.node))
+    lc = Locals(sp.node)
+    from_path = set(lc.bound_from(lambda v: v.startswith("re.findall(") and v.endswith("endpoint.path)"), "assign"))
+
+    def _names_list(e: ast.AST) -> bool:
+        return (isinstance(e, ast.ListComp) and len(e.generators) == 1 and norm(e.generators[0].iter) == "endpoint.path_parameters"
+                and not e.generators[0].ifs and norm(e.elt) == f"{norm(e.generators[0].target)}.name")
+
+    diag = [n for n in ast.walk(sp.node) if isinstance(n, ast.If) and isinstance(n.test, ast.Compare) and len(n.test.ops) == 1
+            and isinstance(n.test.ops[0], ast.NotEq)
+            and any(isinstance(a, ast.Name) and a.id in from_path and _names_list(b)
+                    for a, b in ((n.test.left, n.test.comparators[0]), (n.test.comparators[0], n.test.left)))
+            and any(isinstance(r, ast.Return) and constructs_error(r.value) for r in n.body)]
+    rep.check(bool(diag), "R03.1", "Endpoint.sort_parameters::path-template-check",
+              "a mismatch between the path template and the path parameters is not diagnosed", where(sp, sp.node))
 
     # ---- R03.2 ---------------------------------------------------------------------------------------------------------
     defs = {"headers": ("header_params", "headers: dict[str, Any] = {}"), "cookies": ("cookie_params", "cookies = {}"),
@@ -151,7 +168,14 @@ def run(rep: Report, ctx: Any) -> str:
     rep.check(branches == set(members.values()), "R03.3", "body_to_kwarg::branches", f"body_to_kwarg handles {sorted(branches)}, BodyType has "
               f"{sorted(members.values())}", where=f"{PKG}/templates/{em.name}:{btk.lineno}", lhs=sorted(branches), rhs=sorted(members.values()))
     bfd = ix.func("bodies.body_from_data")
-    assigned = {norm(n.value) for n in ast.walk(bfd.node) if isinstance(n, ast.Assign) and norm(n.targets[0]) == "body_type"}
+    body_calls = [c for c in ast.walk(bfd.node) if isinstance(c, ast.Call) and call_name(c) == "Body"]
+    rep.require(body_calls, "Body(...) construction in body_from_data")
+    bl = Locals(bfd.node)
+    assigned = set()
+    for c in body_calls:
+        v = next((k.value for k in c.keywords if k.arg == "body_type"), None)
+        # the member is either written in place or held in a local: collect everything that local is assigned
+        assigned |= {norm(x) for x in bl.values_of(v.id)} if isinstance(v, ast.Name) else {norm(v)}
     rep.check(assigned == {f"BodyType.{k}" for k in members}, "R03.3", "body_from_data::assigns-every-member",
               f"media type branches assign {sorted(assigned)}", where(bfd, bfd.node), lhs=sorted(assigned), rhs=sorted(f"BodyType.{k}" for k in members))
     kw = [f for f in tplq.frags(et.tree.body) if f.kind == "expr" and f.text == "body.body_type.value"]
@@ -163,12 +187,14 @@ def run(rep: Report, ctx: Any) -> str:
     single = [f for f in cts if any(("eq 1" in g or "== 1" in g) for g, p in f.guards if p)]
     rep.check(bool(single) and any("multipart/form-data" in g for g, p in single[0].guards), "R03.3", "endpoint_module.py.jinja::multipart-boundary",
               "a single multipart body gets an explicit Content-Type (httpx must set the boundary)", where=f"{PKG}/templates/{et.name}")
-    loop = next((n for n in ast.walk(bfd.node) if isinstance(n, ast.For) and "body_content.items()" in norm(n.iter)), None)
-    keyvar = norm(loop.target.elts[0]) if loop is not None and isinstance(loop.target, ast.Tuple) else None
-    for c in [c for c in ast.walk(bfd.node) if isinstance(c, ast.Call) and call_name(c) == "Body"]:
+    for c in body_calls:
+        loop = next((n for n in ast.walk(bfd.node) if isinstance(n, ast.For) and norm(n.iter).endswith(".items()") and any(x is c for x in ast.walk(n))), None)
+        keyvar = norm(loop.target.elts[0]) if loop is not None and isinstance(loop.target, ast.Tuple) else None
+        src = norm(loop.iter)[:-len(".items()")] if loop is not None else ""
+        from_doc = src.endswith(".content") or any(norm(v).endswith(".content") for v in bl.values_of(src))
         ct = {k.arg: norm(k.value) for k in c.keywords}.get("content_type")
-        rep.check(ct == keyvar, "R03.3", "body_from_data::content-type-is-the-documents-key", "Body.content_type is not the document's own media type key",
-                  where(bfd, c), lhs=ct, rhs=keyvar)
+        rep.check(ct is not None and ct == keyvar and from_doc, "R03.3", "body_from_data::content-type-is-the-documents-key",
+                  "Body.content_type is not the document's own media type key", where(bfd, c), lhs=ct, rhs=keyvar)
 
     # ---- R03.4 (shared shapes with C10) ------------------------------------------------------------------------------------
     gs = jx.templates["property_templates/helpers.jinja"].macros.get("guarded_statement")
@@ -252,20 +278,27 @@ def run(rep: Report, ctx: Any) -> str:
     # ---- R03.9 ------------------------------------------------------------------------------------------------------------------
     ap = ix.func("Endpoint.add_parameters")
     n_id = 0
-    for n in ast.walk(ap.node):
+    ploops = [n for n in ast.walk(ap.node) if isinstance(n, ast.For) and norm(n.iter) == "data.parameters"]
+    rep.require(ploops, "loop over data.parameters")
+    pv = norm(ploops[0].target)
+    al = Locals(ap.node)
+    # identity keys: locals bound to a tuple that contains <p>.name
+    keys = {nm: v for nm in al.defs for v in al.values_of(nm) if isinstance(v, ast.Tuple) and f"{pv}.name" in [norm(e) for e in v.elts]}
+    for nm, v in keys.items():
+        rep.check({norm(e) for e in v.elts} == {f"{pv}.name", f"{pv}.param_in"}, "R03.9", "Endpoint.add_parameters::unique_param",
+                  "the de-duplication key is not (name, location)", where(ap, v), lhs=norm(v), rhs=f"({pv}.name, {pv}.param_in)")
+    rep.check(bool(keys), "R03.9", "Endpoint.add_parameters::unique_param", "no (name, location) key is built", where(ap, ap.node))
+    for n in ast.walk(ploops[0]):
         if isinstance(n, ast.If) and any(isinstance(s, (ast.Continue, ast.Return)) for s in n.body):
             tt = norm(n.test)
-            if "param.name" in tt or "unique_param" in tt or "param" in tt and " in " in tt:
-                if "param_schema" in tt or "isinstance" in tt or "location_error" in tt:
-                    continue
+            used = names_in(n.test)
+            if f"{pv}.name" in tt or used & set(keys):
                 n_id += 1
-                both = ("param.param_in" in tt and "param.name" in tt) or "unique_param in unique_parameters" in tt
-                rep.check(both, "R03.9", f"Endpoint.add_parameters::identity[{tt[:60]}]",
+                both = (f"{pv}.param_in" in tt and f"{pv}.name" in tt) or any(
+                    k in used and {norm(e) for e in keys[k].elts} == {f"{pv}.name", f"{pv}.param_in"} for k in keys)
+                rep.check(both, "R03.9", f"Endpoint.add_parameters::identity[{n_id}]",
                           "a parameter is skipped / rejected by name alone: a path-item parameter with the same name in another location is lost",
                           where(ap, n), lhs=tt[:100], rhs="test involves the name and the location")
     rep.floor("parameter_identity_tests", n_id, 2)
-    up = [n for n in ast.walk(ap.node) if isinstance(n, ast.Assign) and norm(n.targets[0]) == "unique_param"]
-    rep.check(bool(up) and norm(up[0].value) == "(param.name, param.param_in)", "R03.9", "Endpoint.add_parameters::unique_param", "unique_param is not "
-              "(name, location)", where(ap, ap.node))
     rep.not_decided += ["the bytes httpx actually sends"]
     return LEVEL
